@@ -102,6 +102,20 @@ def run(ctx):
             for nm2, v2 in (('matrix_norm(2)', utils.matrix_norm(Hn, 2)), ('spectral_norm_2', utils.spectral_norm_2(Hn))):
                 if not abs(float(v2) - sref) <= 1e-10 * max(1.0, sref): viol(f'C15:norm2:def:hermitian:{cls}', f'{nm2} of a {cls} Hermitian matrix is not its largest singular value', Hq, v2, sref)
             ctx.count(('norm2-hermitian', n, cls), True)
+    # larger matrices (both dimensions above any plausible sketch width), scaled permutations with nearly equal moduli included: the 2-norm against an
+    # independent largest singular value, and the same value when asked twice
+    for (m, n), kind in (((16, 16), 'integer'), ((13, 20), 'integer'), ((20, 13), 'integer'), ((24, 24), 'scaled-permutation')) if ctx.quick() else (((16, 16), 'integer'), ((13, 20), 'integer'), ((20, 13), 'integer'), ((24, 24), 'scaled-permutation'), ((28, 20), 'integer'), ((32, 32), 'integer'), ((40, 40), 'scaled-permutation')):
+        if kind == 'integer': Ab = qx.to_np(qx.rand_int(rng, m, n, -3, 3))
+        else:
+            perm = list(range(n)); rng.shuffle(perm); Ab = np.zeros((m, n), dtype=np.quaternion)
+            for i in range(m): Ab[i, perm[i]] = quaternion.quaternion(1.0 - 0.1 * i / m, 0, 0, 0) * quaternion.quaternion(0.5, 0.5, 0.5, -0.5)
+            Ab[0, perm[0]] = quaternion.quaternion(0.5, 0.5, 0.5, -0.5)          # the largest modulus, exactly 1
+        sref = float(np.linalg.svd(utils.real_expand(Ab), compute_uv=False)[0])
+        inp = {'shape': [m, n], 'class': kind}
+        v1 = float(utils.matrix_norm(Ab, 2)); v2 = float(utils.spectral_norm_2(Ab)); v3 = float(utils.matrix_norm(Ab, 2))
+        if abs(v1 - sref) > 1e-9 * sref or abs(v2 - sref) > 1e-9 * sref: viol('C15:norm2:def:large', f'the 2-norm of a {m} x {n} matrix is not its largest singular value (relative deviation {max(abs(v1 - sref), abs(v2 - sref)) / sref:.1e})', qx.from_np(Ab), (v1, v2), sref)
+        if v1 != v3: viol('C15:norm2:repeatable', 'matrix_norm(A, 2) returns different values for the same matrix', qx.from_np(Ab), v1, v3)
+        ctx.count(('norm2-large', m, n, kind), True)
     # dispatch: accepted spellings reach the routine, unknown ones are rejected
     A = rand_pyth(rng, 2, 3); An = qx.to_np(A)
     for o in ('nuc', 'Frobenius', 3, -1, 'two', 0, 'INF', '1', 'FRO'):
